@@ -10,6 +10,7 @@ use std::sync::OnceLock;
 
 pub mod consts;
 pub mod hands;
+pub mod history;
 pub mod c01;
 pub mod c02;
 pub mod c04;
@@ -107,13 +108,28 @@ pub fn confirm(judge: Judge, case: Case) -> Option<Violation> {
     }
 }
 
-/// Like `confirm`, but the enumeration's own fast oracle already said "mismatch": a judge that disagrees
-/// means the two oracles differ, which is a machinery error.
+/// Like `confirm`, but the enumeration's own fast oracle already said "mismatch": if the judge does not reproduce it
+/// the crate returned a wrong answer once and a right one on re-execution, i.e. its result is history dependent.
 pub fn confirm_mismatch(judge: Judge, case: Case) -> Violation {
     match confirm(judge, case.clone()) {
         Some(v) => v,
-        None => monitor::machinery_fail(&format!("fast path reported a mismatch that the canonical judge does not reproduce: {:?}", case)),
+        None => Violation {
+            class: format!("result-not-reproducible:{}", case.kind),
+            case,
+            expected: "the same result whenever the same call is repeated".into(),
+            observed: "the enumeration observed a wrong result for this case once; two immediate re-executions gave the right one - the result depends on something other than the input (hidden state, call history)".into(),
+            profile: profile_name().to_string(),
+            trace: Vec::new(),
+        },
     }
+}
+
+/// A fast-path mismatch that the canonical judge could not reproduce and that could not be attributed to one case
+/// kind: recorded and reported at the end of the run as a violation of class `result-not-reproducible`. On a tree of
+/// pure functions this is never reached (a mismatch always reproduces); when it is reached the code under test
+/// returned a wrong answer at least once, which is a violation whatever the replay does.
+pub fn unreproduced(msg: &str) {
+    crate::engine::evidence::note_unreproduced(msg);
 }
 
 pub fn sample_json(kind: &str, shown: &str, result: &str) -> Json {
